@@ -1,12 +1,236 @@
 /-
   UnytModel.Ops.C18 — opcodes of the C18 model (prefix `c18.`).
+
+  run line (every routine):  <ok|err:Name> <effects> <value bits> <scale bits> <offset bits> <dim> <dtype> <coherent> <named>
+      effects := `,`-joined  S (setUnits) R<dtype> (retype) C<dtype> (castCopy) M (scale) O (shift) K (kernel) T (store) N (clearName)
+      the state columns are the target after the effects, starting from the value `x`, the array's unit/dtype, named = 1
+
+  c18.ctu      <x> <unit5> <kind> <size> <writeable> (E <Err> | U <unit5>)
+  c18.ctb      <base|cgs|mks> <system> <x> <unit5> <kind> <size> <writeable>
+  c18.cte      <x> <unit5> <kind> <size> <writeable> (E <Err> | U <unit5>) <equiv> <kw,kw|> <selfCoeff bits> <depth>
+  c18.setitem  <self unit5> (B | U <unit5>) (- | <Err>)
+  c18.iufunc   <fuel> (N | U <unit6>) <float kind> <float size> <c01.dispatch fields …> <out shape;kind;itemsize> <out writeable>
+  c18.simplify <unit5>                      → <ok|err:Name> <n effects> <returns self 0|1> <coeff bits> <factors>
+  c18.copy.in_units <unit5> <kind> <size> (E <Err> | U <unit5>)            → <ok|err:Name> <n effects>
+  c18.copy.in_base  <system> <unit5>                                       → <ok|err:Name> <n effects>
+  c18.copy.to_equivalent <unit5> <kind> <size> (E <Err> | U <unit5>) <equiv> <kw,kw|>
+  c18.copy.ufunc <c01.dispatch fields …>   (out forced to none)           → <ok|err:Name> <n effects>
+  c18.dump.order <routine>     c18.dump.writes <Class.method>     c18.dump.lists
 -/
 import UnytModel.DriverBase
+import UnytModel.Effects
+import UnytModel.SystemTables
+import UnytModel.Ops.C01
+import UnytModel.Ops.C17
+import UnytModel.Generated.EquivFormulas
+import UnytModel.Generated.DtypeTables
+import UnytModel.Generated.C18Order
+import UnytModel.Ref.C18
 
 namespace Unyt
+open Unyt.Effects Unyt.Ufunc Unyt.Generated
 
-def opsC18 : Handler := fun _st fields =>
+namespace C18Wire
+
+def pErrName (s : String) : Option Err :=
+  [Err.UnitOperationError, .UnitConversionError, .UnitParseError, .InvalidUnitOperation,
+   .UnitInconsistencyError, .IterableUnitCoercionError, .UnitsNotReducible, .InvalidUnitEquivalence,
+   .SymbolNotFoundError, .IllDefinedUnitSystem, .MissingMKSCurrent, .MKSCGSConversionError,
+   .TypeError, .ValueError, .RuntimeError, .KeyError, .Other].find? (fun e => e.str == s)
+
+def effStr : Eff Float → String
+  | .setUnits _ => "S" | .retype d => "R" ++ d.str | .castCopy d => "C" ++ d.str | .scale _ => "M"
+  | .shift _ => "O" | .kernel _ => "K" | .store => "T" | .clearName => "N"
+
+def b01 (b : Bool) : String := if b then "1" else "0"
+
+def runLine (r : IRun Float) (x : Float) (u : UnitV Float) (d : Dtype) : String :=
+  let t := applyAll (fun _ v => v) x ⟨x, u, d, true, true⟩ r.effects
+  let head := match r.result with | .ok _ => "ok" | .error e => "err:" ++ e.str
+  s!"{head}\t{",".intercalate (r.effects.map effStr)}\t{bitsStr t.value}\t{bitsStr t.unit.scale}\t{bitsStr t.unit.offset}\t{t.unit.dim.str}\t{t.dtype.str}\t{b01 t.coherent}\t{b01 t.named}"
+
+/-- `E <Err>` | `U <unit5>` -/
+def pTarget : List String → Option (Except Err (UnitV Float) × List String)
+  | "E" :: e :: rest => (pErrName e).map fun e => (.error e, rest)
+  | "U" :: sc :: off :: dim :: co :: fac :: rest => (parseUnitV sc off dim co fac).map fun u => (.ok u, rest)
+  | _ => none
+
+def pKw (s : String) : List String := if s == "" then [] else s.splitOn ","
+
+def shortLine {α : Type} (n : Nat) : Except Err α → String
+  | .ok _ => s!"ok\t{n}"
+  | .error e => s!"err:{e.str}\t{n}"
+
+/-- the driver's dispatcher context: generated tables, `math.isclose` equality and the real
+    `Unit.simplify` (`_cancel_mul`) as simplifier -/
+def ctx (st : DriverState) : Ctx Float :=
+  let lut := st.luts[0]!
+  { T := Tables.generated, pre := st.pre, lut := lut, ueq := UnitV.eqFloat,
+    simp := fun u => match UV.simplify st.pre lut u with
+      | .ok s => s.asCoeffUnit
+      | .error _ => (1, u) }
+
+/-- the variant of the conversion code the live source has (regenerated flags) -/
+def liveFlags : CtuFlags := ⟨C18.ctuUnitsLast, C18.ctuReadonlyGuard, C18.outReadonlyGuard⟩
+
+def orderOf (name : String) : Option (List String) :=
+  match name with
+  | "convertToUnits" => some C18.convertToUnitsOrder | "convertToBase" => some C18.convertToBaseOrder
+  | "convertToCgs" => some C18.convertToCgsOrder | "convertToMks" => some C18.convertToMksOrder
+  | "convertToEquivalent" => some C18.convertToEquivalentOrder | "toEquivalent" => some C18.toEquivalentOrder
+  | "inUnits" => some C18.inUnitsOrder | "inBase" => some C18.inBaseOrder | "setitem" => some C18.setitemOrder
+  | "arrayUfunc" => some C18.arrayUfuncOrder | "unitSimplify" => some C18.unitSimplifyOrder
+  | _ => none
+
+end C18Wire
+
+open C18Wire C01Wire in
+def stepC18 (st : DriverState) (fields : List String) : Option String :=
+  let lut := st.luts[0]!
+  let em : EmTable Float := defaultEm Float
+  let N := liveNumpy
+  let P := liveRules
   match fields with
+  | "c18.ctu" :: x :: sc :: off :: dim :: co :: fac :: k :: sz :: w :: rest => do
+    let x ← fb x
+    let u ← parseUnitV sc off dim co fac
+    let d ← C17Ops.parseDtype k sz
+    let w ← parseBool w
+    let (tg, _) ← pTarget rest
+    some (runLine (runSteps (convertToUnitsSteps liveFlags N P st.pre lut em ⟨u, d, w⟩ tg)) x u d)
+  | ["c18.ctb", kind, sys, x, sc, off, dim, co, fac, k, sz, w] => do
+    let bk ← (match kind with | "base" => some BaseKind.base | "cgs" => some .cgs | "mks" => some .mks | _ => none)
+    let S ← findSystem Float sys
+    let x ← fb x
+    let u ← parseUnitV sc off dim co fac
+    let d ← C17Ops.parseDtype k sz
+    let w ← parseBool w
+    some (runLine (runSteps (convertToBaseSteps liveFlags N P st.pre lut em S bk ⟨u, d, w⟩)) x u d)
+  | "c18.cte" :: x :: sc :: off :: dim :: co :: fac :: k :: sz :: w :: rest => do
+    let x ← fb x
+    let u ← parseUnitV sc off dim co fac
+    let d ← C17Ops.parseDtype k sz
+    let w ← parseBool w
+    let (tg, rest) ← pTarget rest
+    match rest with
+    | [eq, kw, sco, depth] =>
+      let sco ← fb sco
+      let depth ← depth.toNat?
+      some (runLine (runSteps (convertToEquivalentSteps liveFlags N P st.pre lut em equivalences ⟨u, d, w⟩
+        { convUnit := tg, name := eq, kwargs := pKw kw, selfCoeff := sco, depth := depth,
+          reenters := C18.fixupReenters, powRefuses := powRefuses })) x u d)
+    | _ => none
+  | "c18.setitem" :: sc :: off :: dim :: co :: fac :: rest => do
+    let u ← parseUnitV sc off dim co fac
+    let (v, rest) ← (match rest with
+      | "B" :: r => some (ArrayChecks.SetValue.bare, r)
+      | "U" :: a :: b :: c :: d :: e :: r => (parseUnitV a b c d e).map fun vu => (ArrayChecks.SetValue.withUnits vu, r)
+      | _ => none)
+    match rest with
+    | [np] =>
+      let np : Option (Option Err) := if np == "-" then some none else (pErrName np).map some
+      let np ← np
+      some (runLine (runSteps (setitemSteps st.pre lut UnitV.eqFloat u v np)) 0 u ⟨.f, 8⟩)
+    | _ => none
+  | "c18.iufunc" :: fuel :: rest => do
+    let fuel ← fuel.toNat?
+    let (ou, rest) ← (match rest with
+      | "N" :: r => some (none, r)
+      | "U" :: r => (pUnit r).map fun p => (some p.1, p.2)
+      | _ => none)
+    match rest with
+    | fk :: fs :: f :: m :: nin :: rest =>
+      let fd ← C17Ops.parseDtype fk fs
+      let m ← pMethod m
+      let nin ← nin.toNat?
+      let (ins, rest) ← pOperands nin rest
+      let (out, rest) ← pOut rest
+      match rest with
+      | [ax, ke, ksh, od, ow] =>
+        let ow ← parseBool ow
+        let ax : Option (Option Nat) := if ax == "-" then some none else ax.toNat?.map some
+        let ax ← ax
+        let ke : Option (Option Err) := if ke == "-" then some none else (pErrName ke).map some
+        let ke ← ke
+        let ksh ← pShape ksh
+        -- `od`: the out array's data descriptor `shape;kind;itemsize`
+        let odata : Option Data := match od.splitOn ";" with
+          | [sh, kk, isz] => do
+            let sh ← pShape sh
+            let kk ← pKind kk
+            let isz ← isz.toNat?
+            some { shape := sh, kind := kk, itemsize := isz }
+          | _ => none
+        let odata ← odata
+        let c : Call Float := { ufunc := f, method := m, inputs := ins, out := out, axisLen := ax, kernelErr := ke,
+                                kernelShape := ksh }
+        let o : OutInfo Float := { unit := ou, data := odata, floatDtype := fd,
+                                   promotable := (npDtype N .f fd.size).toOption.isSome, writeable := ow }
+        let r := inplaceUfunc C18.fixupReenters liveFlags.outRoGuard (ctx st) o fuel c
+        let u0 : UnitV Float := match ou with | some u => u.v | none => UnitV.dimensionless
+        let d0 : Dtype := ⟨(match odata.kind with | .i => .i | .u => .u | .c => .c | .b => .b | _ => .f), odata.itemsize⟩
+        some (runLine r 1 u0 d0)
+      | _ => none
+    | _ => none
+  | ["c18.simplify", sc, off, dim, co, fac] => do
+    let u ← parseUnitV sc off dim co fac
+    let r := unitSimplify C18.simplifyCopies st.pre lut u
+    match r.result with
+    | .ok (v, self) => some s!"ok\t{r.effects.length}\t{b01 self}\t{bitsStr v.expr.coeff}\t{Factors.str (UExpr.normF v.expr.factors)}"
+    | .error e => some s!"err:{e.str}\t{r.effects.length}"
+  | "c18.copy.in_units" :: sc :: off :: dim :: co :: fac :: k :: sz :: rest => do
+    let u ← parseUnitV sc off dim co fac
+    let d ← C17Ops.parseDtype k sz
+    let (tg, _) ← pTarget rest
+    let r := runSteps (inUnitsSteps N P st.pre lut em ⟨u, d, true⟩ tg)
+    some (shortLine r.effects.length r.result)
+  | ["c18.copy.in_base", sys, sc, off, dim, co, fac] => do
+    let S ← findSystem Float sys
+    let u ← parseUnitV sc off dim co fac
+    let r := runSteps (inBaseSteps st.pre lut em S u)
+    some (shortLine r.effects.length r.result)
+  | "c18.copy.to_equivalent" :: sc :: off :: dim :: co :: fac :: k :: sz :: rest => do
+    let u ← parseUnitV sc off dim co fac
+    let d ← C17Ops.parseDtype k sz
+    let (tg, rest) ← pTarget rest
+    match rest with
+    | [eq, kw] =>
+      let r := runSteps (toEquivalentSteps N P st.pre lut em equivalences powRefuses ⟨u, d, true⟩ tg eq (pKw kw))
+      some (shortLine r.effects.length r.result)
+    | _ => none
+  | "c18.copy.ufunc" :: f :: m :: nin :: rest => do
+    let m ← pMethod m
+    let nin ← nin.toNat?
+    let (ins, rest) ← pOperands nin rest
+    let (_out, rest) ← pOut rest
+    match rest with
+    | [ax, ke, ksh] =>
+      let ax : Option (Option Nat) := if ax == "-" then some none else ax.toNat?.map some
+      let ax ← ax
+      let ke : Option (Option Err) := if ke == "-" then some none else (pErrName ke).map some
+      let ke ← ke
+      let ksh ← pShape ksh
+      let c : Call Float := { ufunc := f, method := m, inputs := ins, out := .none, axisLen := ax, kernelErr := ke,
+                              kernelShape := ksh }
+      let r := dispatch (ctx st) c
+      some (shortLine r.effects.length r.result)
+    | _ => none
+  | ["c18.dump.order", name] =>
+    match orderOf name with
+    | some l => some ("ok\t" ++ "|".intercalate l)
+    | none => some "none"
+  | ["c18.dump.writes", m] =>
+    match MethodFacts.find? C18.methodFacts m with
+    | some _ => some ("ok\t" ++ "|".intercalate (selfWrites C18.methodFacts 6 m))
+    | none => some "none"
+  | ["c18.dump.lists"] =>
+    some ("ok\t" ++ ",".intercalate Ref.C18.copyingMethods ++ "\t" ++ ",".intercalate Ref.C18.inplaceMethods
+      ++ "\t" ++ ",".intercalate Ref.C18.knownMutatingCopies)
+  | _ => none
+
+def opsC18 : Handler := fun st fields =>
+  match fields with
+  | op :: _ => if op.startsWith "c18." then (stepC18 st fields).map fun s => (st, s) else none
   | _ => none
 
 end Unyt
